@@ -55,7 +55,22 @@ META = {
             "output byte-equal, clean, no raw metacharacter) else to the unguarded one (byte-equal); T every way a value, macro "
             "or output crosses between templates of modes h/n/j (default and custom callback); B render_block; E "
             "Expression::eval values with their Safe bits; R custom formatter and AutoEscape::Custom; W capture wrappers "
-            "render identically; M capture kinds x all autoescape values; N template names; K value kinds; X Unicode / numbers.",
+            "render identically; M capture kinds x all autoescape values; N template names (+ an explicit autoescape true / \"html\" region under each); K value kinds; X Unicode / numbers. "
+            "SESSION 4: (a) environment-configuration axes in streams P and T — a path-join callback (references to other "
+            "templates written without extension / as an alias whose extension selects ANOTHER mode / as ./name; the model sees "
+            "the resolved names only, so a template runs in the mode its own name selects however it was referred to), templates "
+            "registered up front or compiled on demand by a loader; (b) entry-point axis — every generated program is rendered "
+            "through Template::render, render_captured, render_captured_to (io::Write) or Environment::render_named_str in turn, "
+            "stream B adds Template::new_state + State::render_block / render_block_to_write (context as globals; model = the "
+            "block body as a template of that name) and State::call_macro on a captured state; (c) two more regenerated ties: "
+            "all_output_write_sites_modelled (ALL program points of crate minijinja that write to an Output directly, call "
+            "write_escaped, call the formatter or create a sink — a new raw-write fast path breaks the theorem) and "
+            "all_mode_sources_modelled (every point that supplies the auto-escape mode an execution starts in: compiled flag = "
+            "callback(name compiled under), _eval / new_state, Expression::_eval = None, include = the included template's OWN "
+            "flag, blocks / super / macros = current mode); (d) C02_main: the property stated for the ENGINE (structure Engine: "
+            "render / renderBlock / eval) with the gap as the named hypothesis Faithful E (validated by the byte-equal streams), "
+            "the ties as theorems; modelEngine_faithful shows the hypothesis satisfiable. When the Lean driver cannot be built "
+            "(broken table / transient) the oracles that need the model to decide the fragment are skipped instead of guessing.",
     "design_ref": "DESIGN.md §3 C02",
     "level_note": "Trusted: Lean kernel; hand transcription of utils.rs/output.rs/argtypes.rs/filters.rs/pycompat.rs safety "
                   "branches and of the vm's mode/capture/import/extends handling into MJ/Model/Safe.lean and "
@@ -69,12 +84,23 @@ META = {
                   "imported templates do not extend, blocks inside from-imported templates (skipped by the engine while "
                   "discarding) not modelled, State::format inside join under a custom formatter not modelled, `|e` in mode "
                   "None inside a template whose NAME selects Json (falls back to Json) not modelled, AutoEscape::Custom only "
-                  "as an engine-side stream (the default formatter refuses to write).",
+                  "as an engine-side stream (the default formatter refuses to write). MOVED FROM VALIDATED TO PROVED in session 3/4 "
+                  "(session 3's edits were lost; redone in session 4 as far as time allowed): that `Instruction::Emit` -> write_escaped / "
+                  "the formatter is the single choke point for values was trusted — now all_output_write_sites_modelled over the "
+                  "regenerated list of ALL direct Output writes, write_escaped callers, formatter callers and sinks of the crate; "
+                  "that a template starts in the mode its own name selects, includes run in the included template's own mode and "
+                  "blocks / super / macros in the current one was a hand transcription validated by streams T/N — now "
+                  "all_mode_sources_modelled over the regenerated list of every supplier of an initial mode; the statement for the "
+                  "engine (C02_engine) follows from ONE named hypothesis (Faithful E, validated by byte-equal outputs through every "
+                  "entry point) by C02_main. NOT DONE (stays as listed above): lifting the model simplifications (macro closures, "
+                  "blocks at depth, included / imported templates that extend, blocks inside from-imported templates, State::format "
+                  "inside join under a custom formatter, `|e` under a Json-named template, AutoEscape::Custom) into SafeProg; producer "
+                  "facts for class-only callables for all argument shapes (still sampled: stream G).",
 }
 
 TABLES = ["HTML_ESCAPE_TABLE", "HTML_NEEDS_ESCAPING", "HTML_ESCAPE_FILTER_SUB", "SAFE_PRODUCER_SITES", "FILTER_NAMES",
           "AUTOESCAPE_BY_NAME", "AUTOESCAPE_SHAPE", "PYCOMPAT_METHODS", "C02_CALLABLES", "C02_VALUE_REPR_VARIANTS",
-          "C02_WRITE_ESCAPED_DISPATCH"]
+          "C02_WRITE_ESCAPED_DISPATCH", "C02_OUTPUT_WRITE_SITES", "C02_MODE_SOURCES"]
 METAS = set("<>\"'")
 LOCAL_CLASS = {"op~": "modelled", "op+": "modelled", "op*": "modelled", "op[:]": "modelled", "op[]": "modelled",
                "loop.cycle": "select", "str.replace#count": "normal", "str.splitlines#keepends": "normal"}
@@ -167,11 +193,11 @@ def run(r):
               "content variants x all Safe/Normal assignments of its string arguments; stream P: seeded generated programs "
               "(macros, call blocks, set/filter blocks, loops, recursion, includes, import-as-module / from-import with aliases, "
               "library variables, libraries and parents whose names select other modes, child statements outside blocks, every "
-              "autoescape value, custom callback, custom formatter, 2-3 level inheritance) with data strings over < > \" ' & / "
+              "autoescape value, custom callback, custom formatter, path-join callback, loader, 4 entry points, 2-3 level inheritance) with data strings over < > \" ' & / "
               "Greek, whitespace; W: program body wrapped in 8 capture constructs; T: 14 cross-template flows x 4 library names x "
-              "3 main names x 2 callbacks x 2 data strings; B: render_block; E: 158 expressions through Expression::eval; R: custom "
+              "3 main names x 2 callbacks x 2 data strings x path-join styles (none/noext/otherext/dir); B: render_block, new_state + render_block(_to_write), call_macro; E: 158 expressions through Expression::eval; R: custom "
               "formatter on 7 printing paths + AutoEscape::Custom; M: 7 capture kinds x 8 autoescape values x 3 data strings; "
-              "N: 17 template names; K: value kinds; X: all Unicode scalar values. A case is non-trivial when the engine "
+              "N: 17 template names x (plain, autoescape true, autoescape \"html\"); K: value kinds; X: all Unicode scalar values. A case is non-trivial when the engine "
               "rendered/evaluated it without error and it is distinct")
     r.assumptions = [
         "the hand transcription of the engine's mode / capture / import / extends handling into execProg is faithful beyond the generated programs (validated by byte-equal output per program)",
@@ -222,6 +248,11 @@ def run(r):
         mlines = []
         r.model_disagreement = lambda *a, **k: None
     classes, model = dict(LOCAL_CLASS), {}
+    if no_model:
+        # without the driver the class of a callable is unknown: only the two documented markup filters are exempted
+        # from the Safe-result oracle, and the fragment of a generated program cannot be decided (its raw-metacharacter
+        # oracle is skipped: the broken build is reported without a failing input unless another stream has one)
+        classes.update({"safe": "markup", "tojson": "markup"})
     for ml in mlines:
         f = ml.split("\t")
         if f[0] == "?class":
@@ -328,7 +359,7 @@ def run(r):
                     r.hist["syntactic_class"][m[5]] += 1
                     if m[5] == "progok" and not in_fragment:
                         r.broken.append(f"program {i} is in the syntactic class ProgOk but the guarded interpreter refused it")
-            raw = sorted(METAS & set(text)) if in_fragment else []
+            raw = sorted(METAS & set(text)) if in_fragment and not no_model else []
             if raw:
                 r.oracle_failure(cj, f"output of a safe-marking-free program contains raw {''.join(raw)!r} "
                                      f"(template text has none): …{text[max(0, text.index(raw[0]) - 20):text.index(raw[0]) + 20]!r}…",
@@ -356,9 +387,17 @@ def run(r):
                                  "wrap:" + c["kind"])
         elif s in ("T", "B", "R") and c.get("prog"):
             kind = c["kind"]
-            label = f"{s}:{kind}:{c.get('lib', '')}:{c.get('libmode', '')}->{c['main']}:{c.get('mainmode', '')}:{c.get('callback', '')}"
+            label = f"{s}:{kind}:{c.get('lib', '')}:{c.get('libmode', '')}->{c['main']}:{c.get('mainmode', '')}:{c.get('callback', '')}:{c.get('joinstyle', '')}"
             r.hist["cross_template" if s == "T" else ("render_block" if s == "B" else "custom_formatter")][f"{kind}:{c.get('libmode', '')}->{c.get('mainmode', '')}"] += 1
             bok, mok = rf[0] == "OK", (m is not None and m[0] == "OK")
+            if s == "T":
+                r.hist["path_join"][c.get("joinstyle") or "none"] += 1
+                if bok and c.get("tail") and c.get("mainmode") == "h":
+                    # engine-only: the data the main template (its name selects Html) prints after the crossing
+                    tail_text = dec(rf[2]).rsplit("¦", 1)[-1]
+                    if METAS & set(tail_text):
+                        r.oracle_failure(cj, f"{kind} ({c.get('lib', '')} -> {c['main']}): after the crossing the main template "
+                                             f"(mode Html by its name) writes data raw: {tail_text!r}", f"cross-tail:{kind}")
             r.count(label + json.dumps(c["ctx"], sort_keys=True), bok)
             if m is None or bok != mok or (bok and m[2] != rf[2]):
                 r.model_disagreement(cj, res, "\t".join(m or []))
@@ -415,7 +454,7 @@ def run(r):
                 continue
             if m is None or rf[0] != "OK" or m[0] != "OK" or m[2] != rf[2]:
                 r.model_disagreement(cj, res, "\t".join(m or []))
-                if rf[0] == "OK" and c["mode"] in ("n", "h") and METAS & set(dec(rf[2])):
+                if rf[0] == "OK" and (c["mode"] in ("n", "h") if s == "M" else c["mode"] == "h") and METAS & set(dec(rf[2])):
                     r.oracle_failure(cj, f"{label}: data written raw: {dec(rf[2])!r}",
                                      f"{c.get('site', 'name')}:{c.get('region', c.get('name'))}->html")
                 continue
